@@ -31,6 +31,7 @@ EXPLANATION = (
     "(path enumeration of the chain function); R18d the per-file success status is never dropped on the way to "
     "that chain; R18e every exit taken inside an error reporter passes SYSTEM_ERROR and help-printing exits pass "
     "COMMAND_LINE_ERROR; R18f (=R19d) the list-files branch consults the discovery error flag; R18g nothing reads the configuration (scheme, plugins, extensions, logging) before all layers are applied; R18h a per-file function that reported an error returns the failure status. "
+    "R18k (=R16i) the 'system error' row for a document that is not valid UTF-8: every text-mode open of document content decodes strictly. "
     "Not decided: argparse's own exits (2 on bad arguments, 0 on --help) are library behaviour; which category "
     "a given run produces at run time."
 )
@@ -669,6 +670,10 @@ def run(ctx: Context) -> None:
     for finding in ctx.rules[-1].findings:
         finding.rule = "R18j"
     scheme_before_scheme_dependent_exits(ctx)
+    from sa.rules import c16
+
+    # 'system error' row: a document that cannot be decoded raises (and is reported), it is not scanned as other text
+    c16.strict_decoding(ctx, "R18k")
     if ctx.tier == "thorough":
         from sa.rules import driver_exploration
 
